@@ -130,3 +130,16 @@ func ChildMain(args []string) int {
 }
 
 func monCatch(f func()) any { return mon.Catch(f) }
+
+// unusedField picks a value for a parameter field the operation under test does not use
+// (Skew in generation, Period in HOTP): half the time 0, otherwise small, bound-adjacent and huge values.
+func unusedField(x uint64) uint64 {
+	x ^= x >> 33
+	x *= 0xff51afd7ed558ccd
+	x ^= x >> 29
+	if x&1 == 0 {
+		return 0
+	}
+	tab := []uint64{1, 2, 9, 10, 11, 12, 30, 100, 255, 1 << 16, 1<<31 - 1, 1 << 31, 1<<32 - 1, 1 << 32, 1<<63 - 1, 1 << 63, ^uint64(0)}
+	return tab[(x>>1)%uint64(len(tab))]
+}
